@@ -73,7 +73,12 @@ func renameOnlyDiff(a, b []tok, prefix string) (map[int]string, string) {
 			return nil, fmt.Sprintf("token %d: %s %q vs %s %q", i, a[i].T, a[i].Lit, b[i].T, b[i].Lit)
 		}
 		if a[i].Lit != b[i].Lit {
-			isCall := i+1 < len(a) && a[i+1].T == token.LPAREN
+			// the next token that is not a comment must open the argument list
+			j := i + 1
+			for j < len(a) && a[j].T == token.COMMENT {
+				j++
+			}
+			isCall := j < len(a) && a[j].T == token.LPAREN
 			if a[i].T == token.IDENT && isCall && strings.HasPrefix(a[i].Lit, prefix) && strings.HasPrefix(b[i].Lit, prefix) {
 				subst[a[i].Off] = b[i].Lit
 				continue
@@ -118,8 +123,8 @@ type c10Case struct {
 
 func checkC10(c *Ctx) {
 	c.Anchors = []string{"derive"}
-	c.Run.Rule = "cases = module trees (package p plus bystander packages, non-Go files, read-only files, non-gofmt files, //line directives) run (a) without -autoname/-dedup over successful, generator-error and load-error outcomes: the recursive snapshot (names, modes, sha256) before vs after may differ only in p/derived.gen.go; (b) with -autoname / -dedup / both over renamings whose new name is shorter than, as long as, or longer than the old one, several renamed calls per file, renames decided only in a second generation pass, trailing comments, build tags: files without a renamed call must be byte-identical, a rewritten file must parse, be gofmt-stable and have a token stream (go/scanner, comments included) identical to the original except at derive call identifiers. distinct_nontrivial = distinct (flag set, scenario, layout, name-length relation, outcome)"
-	c.Run.Assume = []string{"exact byte equality with gofmt(original with identifiers substituted) is computed and reported (layout_mismatch) but only token-level divergence, instability under gofmt, unparsability or leftovers decide"}
+	c.Run.Rule = "cases = module trees (package p plus bystander packages, non-Go files, read-only files, non-gofmt files, //line directives) run (a) without -autoname/-dedup over successful, generator-error and load-error outcomes: the recursive snapshot (names, modes, sha256) before vs after may differ only in p/derived.gen.go; (b) with -autoname / -dedup / both over renamings whose new name is shorter than, as long as, or longer than the old one, several renamed calls per file, renames decided only in a second generation pass, trailing comments, build tags: files without a renamed call must be byte-identical, a rewritten file must parse, be gofmt-stable, have a token stream (go/scanner, comments included) identical to the original except at derive call identifiers, and be byte-identical to gofmt(original with those identifiers substituted). distinct_nontrivial = distinct (flag set, scenario, layout, name-length relation, outcome)"
+	c.Run.Assume = []string{"gofmt = go/format.Source of the toolchain the check is built with"}
 	c.Run.Floor = 20
 	cases := c10Cases(c)
 	type res struct {
@@ -236,6 +241,8 @@ func checkC10(c *Ctx) {
 			exp, err := format.Source(substitute(orig, ta, subst))
 			if err != nil || !bytes.Equal(exp, now) {
 				layoutMismatch++
+				viol("rewritten-file-is-not-gofmt-of-substituted-original", p+": same tokens, but the bytes differ from gofmt(original with the renamed identifiers substituted)\n"+firstDiff(string(exp), string(now)))
+				bad = true
 			}
 		}
 		if flagged && o.g.Exit == 0 && nrew == 0 && strings.Contains(cs.Class, "rename") {
@@ -299,6 +306,9 @@ func uglify(src string, r *rand.Rand) string {
 	}
 	return sb.String()
 }
+
+// c10FileSep separates the text of p.go from the text of a second file with renamed calls.
+const c10FileSep = "\n//==== p/q_more.go ====\n"
 
 func c10Cases(c *Ctx) []c10Case {
 	var out []c10Case
@@ -366,6 +376,17 @@ func c10Cases(c *Ctx) []c10Case {
 		{"autoname-second-pass", []string{"-autoname"}, func(n1, n2 string) string {
 			return "func e1(a, b *A) bool { return " + n1 + "(a, b) }\n\n// the argument type of this call is only known after a first generation pass\nfunc e2(m map[string]int, want []string) bool {\n\treturn " + n1 + "(deriveSort(deriveKeys(m)), want) // nested\n}\n"
 		}},
+		{"dedup-two-files", []string{"-dedup"}, func(n1, n2 string) string {
+			return "func e1(a, b *A) bool { return " + n1 + "(a, b) }\n\nfunc e2(a, b *A) bool { return " + n2 + "(a, b) } // renamed in this file\n" +
+				c10FileSep + "package p\n\n// a second file of the package with its own renamed call\nfunc e9(a, b *A) bool { return " + n2 + "(b, a) } // and renamed in this one\n\nvar keep = 1 // stays\n"
+		}},
+		{"autoname-two-files", []string{"-autoname"}, func(n1, n2 string) string {
+			return "func e1(a, b *A) bool { return " + n1 + "(a, b) }\n\nfunc e2(a, b *B) bool { return " + n1 + "(a, b) }\n" +
+				c10FileSep + "package p\n\n// a second file of the package with a third user of the same name\nfunc e9(a, b *C) bool { return " + n1 + "(a, b) }\n"
+		}},
+		{"dedup-comments-at-call", []string{"-dedup"}, func(n1, n2 string) string {
+			return "func e1(a, b *A) bool { return " + n1 + "(a, b) }\n\nfunc e2(a, b *A) bool { return " + n2 + " /* between name and paren */ (a, b) }\n\nfunc e3(a, b *A) bool {\n\treturn " + n2 + "( // right after the parenthesis\n\t\ta, b)\n}\n\nfunc e4(a, b *A) bool {\n\treturn /* before the name */ " + n2 + "(a /* first */, b /* second */) // trailing\n}\n"
+		}},
 		{"dedup-many-per-file", []string{"-dedup"}, func(n1, n2 string) string {
 			return "func e1(a, b *A) bool { return " + n1 + "(a, b) }\n\nfunc e2(a, b *A) bool { return " + n2 + "(a, b) && " + n2 + "(b, a) }\n\nvar v = " + n2 + "(&A{}, &A{}) // package-level\n\nfunc e3() func(a, b *A) bool { return func(a, b *A) bool { return " + n2 + "(a, b) } }\n"
 		}},
@@ -398,7 +419,17 @@ func c10Cases(c *Ctx) []c10Case {
 					src = hdr + "import (\n\t\"strings\"\n\t\"fmt\"\n\t\"bytes\"\n)\n\nvar _ = fmt.Sprint(strings.ToUpper(\"x\"), bytes.MinRead, 0XFF, 1E3, 0B11, 0O17, 0X1P-2)\n\n" + strings.TrimPrefix(src, hdr)
 					desc += " unsorted-imports+literals"
 				}
+				var more string
+				if i := strings.Index(src, c10FileSep); i >= 0 {
+					src, more = src[:i], src[i+len(c10FileSep):]
+					if layout == 2 {
+						more = uglify(more, r)
+					}
+				}
 				files := map[string]string{"p/p.go": src, "p/other.go": other, "q/q.go": bystander, "p/NOTES.txt": notes}
+				if more != "" {
+					files["p/q_more.go"] = more
+				}
 				// a second user file with its own (non-renamed) derive call
 				files["p/second.go"] = "package p\n\n// second.go has a derive call that keeps its name\nfunc hashB(b *B) uint64 { return deriveHash(b) }\n"
 				// files that sort AFTER the file with the renamed call: valid Go that is not gofmt-formatted,
